@@ -15,6 +15,7 @@ import NumqiProofs.CatalogueCheb
 import NumqiProofs.CatalogueGenShifts
 import NumqiProofs.CatalogueSixparam
 import NumqiProofs.CatalogueUpbTables
+import NumqiProofs.CatalogueMeasures
 import Mathlib.Analysis.SpecialFunctions.Trigonometric.Basic
 
 set_option linter.unusedSectionVars false
@@ -241,6 +242,60 @@ theorem antoine_ppt (q : K) (h1 : -(3/2) ≤ q) (h2 : q ≤ 3/2) (x : Fin 9 → 
   have h0 : 0 ≤ 2 * (x 0 * x 0 + x 4 * x 4 + x 8 * x 8) :=
     mul_nonneg (by norm_num) (by have := mul_self_nonneg (x 0); have := mul_self_nonneg (x 4); have := mul_self_nonneg (x 8); linarith)
   linarith
+
+/-! ## round 6: the remaining public constructors / closed forms -/
+
+/-- **`Wtype(coeff)` is a normalised ket** (real coefficients): `Σ_x ket(x)² = 1` whenever `nrm = ‖coeff‖ ≠ 0` -/
+theorem Wtype_norm {F : Type} [Field F] (coeff : List F) (nrm : F) (h0 : nrm ≠ 0)
+    (hn : nrm * nrm = ∑ k ∈ Finset.range coeff.length, coeff.getD k 0 * coeff.getD k 0) :
+    ∑ x ∈ Finset.range (2 ^ coeff.length), ketWtype coeff nrm x * ketWtype coeff nrm x = 1 :=
+  ketWtype_norm_sq coeff nrm h0 hn
+
+/-- **`get_qubit_dicke_state_GME(n,k) ∈ [0,1)`** for every `n ≥ 1`, `0 ≤ k ≤ n` -/
+theorem dicke_gme_range (n k : ℕ) (hn : 0 < n) (hk : k ≤ n) : 0 ≤ dickeGME n k ∧ dickeGME n k < 1 := dickeGME_range n k hn hk
+
+/-- … it vanishes on the product states `k ∈ {0, n}` and is symmetric under `k ↔ n-k` -/
+theorem dicke_gme_product (n : ℕ) (hn : 0 < n) : dickeGME n 0 = 0 ∧ dickeGME n n = 0 :=
+  ⟨dickeGME_zero_left n hn, dickeGME_zero_right n hn⟩
+
+theorem dicke_gme_symm (n k : ℕ) (hk : k ≤ n) : dickeGME n (n - k) = dickeGME n k := dickeGME_symm n k hk
+
+/-- the multiplicative binomial of the model is the binomial coefficient -/
+theorem binomN_choose (n k : ℕ) : binomN n k = n.choose k := binomN_eq_choose n k
+
+theorem max3_ge (x y z : K) : x ≤ max3 x y z ∧ y ≤ max3 x y z ∧ z ≤ max3 x y z := by
+  unfold max3; simp only
+  split_ifs <;> refine ⟨?_, ?_, ?_⟩ <;> linarith
+
+theorem max3_mem (x y z : K) : max3 x y z = x ∨ max3 x y z = y ∨ max3 x y z = z := by
+  unfold max3; simp only
+  split_ifs <;> simp
+
+/-- **`get_Wtype_state_GME` outside the triangle region is `1 - max(a²,b²,c²) ∈ [0, 2/3]`** for normalised `(a,b,c)` -/
+theorem wtypeGME_else_range (c16 two q34 four a b c : K) (hn : a * a + b * b + c * c = 1)
+    (hT : ¬ (0 < b * b + c * c - a * a ∧ 0 < a * a + c * c - b * b ∧ 0 < a * a + b * b - c * c)) :
+    wtypeGME c16 two q34 four a b c = 1 - max3 (a * a) (b * b) (c * c)
+      ∧ 0 ≤ wtypeGME c16 two q34 four a b c ∧ wtypeGME c16 two q34 four a b c ≤ 2 / 3 := by
+  have e : wtypeGME c16 two q34 four a b c = 1 - max3 (a * a) (b * b) (c * c) := by
+    unfold wtypeGME; simp only; rw [if_neg hT]
+  obtain ⟨h1, h2, h3⟩ := max3_ge (a * a) (b * b) (c * c)
+  have ha := mul_self_nonneg a; have hb := mul_self_nonneg b; have hc := mul_self_nonneg c
+  refine ⟨e, ?_, ?_⟩
+  · rw [e]; rcases max3_mem (a * a) (b * b) (c * c) with h | h | h <;> rw [h] <;> linarith
+  · rw [e]; linarith
+
+/-- **`get_element_probing_POVM('eq8', dim)`: all `2·dim` operators are Hermitian**, every `dim` -/
+theorem eprobe8_hermitian (dim m r c : ℕ) : eprobe8 dim m c r = conj (eprobe8 dim m r c) := by
+  unfold eprobe8
+  split_ifs <;> first | rfl | (exfalso; omega) | (simp_all; done)
+
+/-- **`get_element_probing_POVM('eq9', dim)`: each of the four bases `B1..B4` is orthonormal and complete** (`Σ_i |b_i⟩⟨b_i| = 1`,
+so the `4·dim` rank-one projectors resolve `4·1`); exact Gaussian-integer computation for `dim = 4, 6, 8, 10, 12` -/
+theorem eprobe9_unitary_partial :
+    ∀ b < 4, ∀ dim ∈ [4, 6, 8, 10, 12], eprobe9Unitary b dim = true := by decide +kernel
+
+/-- full statement (every even `dim ≥ 4`); open — tied for `dim ≤ 12`, probed beyond -/
+def Eprobe9Unitary.Statement : Prop := ∀ b < 4, ∀ dim, 4 ≤ dim → dim % 2 = 0 → eprobe9Unitary b dim = true
 
 /-! ## closed-form values on the entangled branch, and the range guards of the model -/
 
